@@ -10,6 +10,15 @@ VAL = "ucglib::build::ir::Val"
 
 def _errs(fn):
     e = {b for b, j, pl, rv, m in fn.assigns() if pl["l"] == 0 and not pl["p"] and rv["k"] == "agg" and rv.get("variant") == "Err"}
+    # an Err built into a local that is handed to `?` (the result of a spliced helper): `?` returns it
+    tried = set()
+    for b, t in fn.calls():
+        if callee(t).endswith("Try>::branch") and t["args"]:
+            l = op_local(t["args"][0])
+            if l is not None:
+                tried |= util.feeders_of(fn, l)
+    e |= {b for b, j, pl, rv, m in fn.assigns() if pl["l"] in tried and not pl["p"] and rv["k"] == "agg" and rv.get("variant") == "Err"
+          and rv.get("adt") == "core::result::Result"}
     return e | {b for b, t in fn.calls() if callee(t).endswith("::from_residual")}
 
 
